@@ -56,15 +56,20 @@ ClauseCompute(e) ==
                ELSE IF ~SameTab1(LAMBDA t, lab : S!IStock(drv, t, lab), e.stock) THEN "stock {C09,C16,C17}"
                ELSE IF ~SameTab1(LAMBDA t, lab : S!IOutflow(drv, t, lab), e.outflow) THEN "outflow {C03,C09,C17}"
                ELSE IF ~SameTab2(LAMBDA t, c, lab : S!ISbc(drv, t, c, lab), e.sbc) THEN "stock by cohort {C09,C17}"
+               ELSE IF ~SameTab2(LAMBDA t, c, lab : S!IObc(drv, t, c, lab), e.obc) THEN "outflow by cohort {C09,C17}"
                ELSE ""
            [] T.cls = "stock" ->
                IF ~SameTab1(LAMBDA t, lab : S!RInt(drv[t][lab]), e.stock) THEN "prescribed stock changed {C15,C17}"
                ELSE IF ~SameTab1(LAMBDA t, lab : StockIn[t][lab], e.inflow) THEN "inflow {C10,C16,C17}"
                ELSE IF ~SameTab1(LAMBDA t, lab : S!ROutflow(StockIn, t, lab), e.outflow) THEN "outflow {C10,C03,C17}"
                ELSE IF ~SameTab2(LAMBDA t, c, lab : S!RSbc(StockIn, t, c, lab), e.sbc) THEN "stock by cohort {C09,C10,C17}"
+               ELSE IF ~SameTab2(LAMBDA t, c, lab : S!RObc(StockIn, t, c, lab), e.obc) THEN "outflow by cohort {C09,C10,C17}"
                ELSE ""
 
-Clause(e) == IF e.op = "compute" THEN ClauseCompute(e) ELSE ""
+Clause(e) == IF e.op = "compute" THEN ClauseCompute(e)
+             ELSE IF e.op = "set_prm_raised" THEN "set_prms refused well-formed lifetime parameters (" \o e.outcome \o ") {C08,C17}"
+             ELSE IF e.op = "build_raised" THEN "building the stock from well-formed inputs raised (" \o e.outcome \o ") {C08,C13,C17}"
+             ELSE ""
 
 \* the contract's own theorems on the expected tables of every compute state (inflow class)
 Theorems ==
